@@ -194,7 +194,8 @@ impl Prop for Sticky {
         shape.steps = 4..=tier.pick(24, 40);
         shape.ops_per_txn = 2;
         (
-            history_strategy(Profile::sequences_unique(), shape, false),
+            // formatting does not move anything: format marks in front of an anchor must not be counted
+            history_strategy(Profile { format: 2, ..Profile::sequences_unique() }, shape, false),
             prop::collection::vec((any::<u16>(), any::<u8>(), 0u8..3, any::<u16>(), any::<bool>(), prop::bool::weighted(0.15)), 1..5),
         )
             .prop_map(|(history, specs)| Case {
